@@ -80,6 +80,14 @@ UB == {FileD(<<BmEl(EA, EB)>> \o u) : u \in UNION {Unreach(e) : e \in {EA, Mem(I
                     Elem("o", <<Attr("id", "", EV(EB))>>, <<Elem("i", <<Attr("style", "", EV(EA)), Attr("mark:", "m", EV(Id("l")))>>, <<>>)>>)>>)}
       \cup UA
 
+(* fields named like members of Object.prototype, used where the map cannot reach: a map that is a plain object
+   "has" them although it does not own them, and the runtime asks with `map[field]` *)
+ProtoNames == {"constructor", "valueOf", "toString", "hasOwnProperty"}
+UN == {FileD(<<BmEl(EA, EB)>> \o u) : u \in UNION {Unreach(Id(n)) : n \in ProtoNames}}
+      \cup {FileD(<<BmEl(Id(n), EB)>>) : n \in ProtoNames}
+DN == VO(<< <<"a", VI(1)>>, <<"b", VS("t1")>>, <<"s", VS("xy")>>, <<"constructor", VB(TRUE)>>, <<"valueOf", VS("v")>>, <<"toString", VB(FALSE)>>,
+            <<"hasOwnProperty", VI(3)>> >>)
+
 (* path-pair family: ONE binding reading TWO dependency paths, so that a change marked on either of them - and on
    each only - must refresh it.  The paths share roots, differ in static keys, differ in dynamic index expressions
    (l[a] vs l[b]: same shape, different temporaries) or are unrelated. *)
@@ -151,7 +159,9 @@ EditMenu(d) == IF Family = "F6" THEN F6Edits ELSE IF Family = "UP" THEN UPEdits(
 
 CoverOf(kind, ps) == CASE kind = "exact" -> Exact(ps) [] kind = "coarse" -> Coarse(ps) [] OTHER -> Whole
 
-IInit == files \in UCases /\ data \in UDatas /\ hist = <<>> /\ d0 = data
+IInit == /\ \/ files \in UCases /\ data \in UDatas
+            \/ Family = "UB" /\ files \in UN /\ data = DN         \* (data that owns the fields: the specification's objects have no prototype)
+         /\ hist = <<>> /\ d0 = data
 
 Update(es, kind) ==
     LET d2 == ApplyEdits(data, es, 1)
@@ -175,7 +185,7 @@ BMUpdate(f, v) ==
        /\ UNCHANGED <<files, d0>>
 
 INext == IF Family = "UB"
-         THEN \E f \in {"a", "b", "o", "l", "s", "f"}, v \in BmValues : BMUpdate(f, v)
+         THEN \E f \in {"a", "b", "o", "l", "s", "f"} \cup (IF files \in UN THEN ProtoNames ELSE {}), v \in BmValues : BMUpdate(f, v)
          ELSE IF Family = "UL"
          THEN \/ \E es \in EditMenu(data), kind \in CoverKinds : Update(es, kind)
               \/ \E es \in EditMenu(data) : BMUpdate(es[1].p[1], es[1].v)
